@@ -103,7 +103,16 @@ ScanEv == IsEv("scan") /\ IF ~H.open THEN Refused
              /\ LET np == IF r[2] <= Len(C) /\ C[r[2]] = 32 THEN r[2] ELSE r[2] - 1 IN      \* the blank after the digits is consumed
                 Ok(With(fs, E.o, [H EXCEPT !.pos = np, !.eof = (np = Len(C)) \/ H.eof]), disk, opens, closes)   \* looking for more white space hits the end
 
-Next == Reset \/ End \/ New \/ Open \/ Write \/ Read \/ Seek \/ BigSeek \/ Tell \/ Eof \/ Flush \/ Close \/ WithBegin \/ Del \/ Destruct \/ Construct \/ FullClose \/ ProcClose2 \/ PrintEv \/ PrintZ \/ ScanEv
+TextP(v) == Digits(v) \o <<37, 32>>                               \* "%li%% " of a non-negative value
+PrintP == IsEv("printp") /\ IF ~H.open THEN Refused
+          ELSE /\ E.r = Len(TextP(E.a))
+               /\ Ok(With(fs, E.o, [H EXCEPT !.pos = WritePos(H, C) + Len(TextP(E.a))]), [disk EXCEPT ![H.path] = Overwrite(@, WritePos(H, @), TextP(E.a))], opens, closes)
+ScanP == IsEv("scanp") /\ IF ~H.open THEN Refused
+         ELSE LET r == ParseNat(C, H.pos + 1, <<0, H.pos + 1>>) IN                    \* digits, the per cent sign, then the blank
+              /\ E.r = r[1] /\ r[2] <= Len(C) /\ C[r[2]] = 37
+              /\ LET np == IF r[2] + 1 <= Len(C) /\ C[r[2] + 1] = 32 THEN r[2] + 1 ELSE r[2] IN
+                 Ok(With(fs, E.o, [H EXCEPT !.pos = np, !.eof = (np = Len(C)) \/ H.eof]), disk, opens, closes)
+Next == PrintP \/ ScanP \/ Reset \/ End \/ New \/ Open \/ Write \/ Read \/ Seek \/ BigSeek \/ Tell \/ Eof \/ Flush \/ Close \/ WithBegin \/ Del \/ Destruct \/ Construct \/ FullClose \/ ProcClose2 \/ PrintEv \/ PrintZ \/ ScanEv
 Spec == Init /\ [][Next]_vars
 Accepted == LET d == TLCGet("stats").diameter IN
             /\ PrintT(<<"TRACE_MATCHED", d - 1, Len(T)>>)
